@@ -31,6 +31,15 @@ def _expand_item(args):
     return func(item)
 
 
+def _expand_timeout(item, limit, timed_out=True):
+    _func, (config, history) = item
+    if not timed_out:
+        return {"key": None, "state_probs": [], "n_state_checks": 0, "succ": []}
+    p = core.problem("did_not_terminate", {"config": config, "history": history, "limit_s": limit},
+                     expected="expanding this state finishes", observed="an operation or query on this state does not terminate")
+    return {"key": None, "state_probs": [p], "n_state_checks": 0, "succ": []}
+
+
 def bfs(expand, config, init_key, max_depth=None, max_states=None, jobs=None, acc=None,
         sample_every=0):
     """Returns (acc, info).  info: states, transitions, depth, fixpoint(bool), levels."""
@@ -47,7 +56,7 @@ def bfs(expand, config, init_key, max_depth=None, max_states=None, jobs=None, ac
         if max_depth is not None and depth >= max_depth:
             capped = True
             break
-        out = core.pmap(_expand_item, [(expand, (config, h)) for h in frontier], jobs=jobs)
+        out = core.pmap(_expand_item, [(expand, (config, h)) for h in frontier], jobs=jobs, on_timeout=_expand_timeout)
         nxt = []
         for res, h in zip(out, frontier):
             state_checks += res.get("n_state_checks", 0)
